@@ -1513,6 +1513,96 @@ class TallyStream(Stream):
 # }}}
 
 
+# {{{ T-gen: the table interpreters run on the regenerated tables, and the histogram tagger model
+
+class TableTagStream(TagTreeStream):
+    """`tag_common_subexpressions` against the compiled table interpreter `c12TagAllRun` run on the
+    tables regenerated from the working tree (lean/PV/Generated/Cse.lean + Traversal.lean)"""
+    name = "table-tag"
+
+    def request(self, pl):
+        return f"(cse-table-tag ({' '.join(pl['exprs'])}))"
+
+
+class TableCountStream(UseCountStream):
+    """`UseCountMapper` against the table-driven counting walk on the regenerated tables"""
+    name = "table-count"
+
+    def request(self, pl):
+        return f"(cse-table-count ({' '.join(pl['exprs'])}))"
+
+
+class TableWrapStream(WrapStream):
+    """`wrap_in_cse` / `make_common_subexpression` against their regenerated decision trees"""
+    name = "table-wrap"
+
+    def request(self, pl):
+        if pl["helper"] == "wrap":
+            return f"(cse-table-wrap {pl['expr']} {self._opt(pl['prefix'])})"
+        return f"(cse-table-make {pl['expr']} {self._opt(pl['prefix'])} {self._opt(pl['scope'])})"
+
+    def oracle(self, pl):
+        return None          # the property's statement is checked by the `wrap` stream
+
+
+class HistTagStream(Stream):
+    """CSEWalkMapper + CSETagMapper (pymbolic/mapper/cse_tagger.py) on one expression against the
+    hand-written model `c12HistTagRun`: tagged trees, every node type"""
+    name = "histtag"
+    op = "cse-hist-tag"
+
+    def cases(self, rng, tier):
+        x, y = p.Variable("x"), p.Variable("y")
+        C = p.CommonSubexpression
+        for e in [p.Sum((C(p.Product((x, y))), p.Product((x, y)))), C(p.Quotient(0, x)),
+                  p.Sum((p.Min((x, y)), p.Min((x, y)))), p.Sum((C(0), C(0.0), C(False), C(x))),
+                  p.Sum((p.Sum((x, 1)), p.Sum((x, 1.0)), p.Sum((x, True)))),
+                  p.Product((p.LeftShift(x, y), p.LeftShift(x, y), p.Lookup(x, "u"), p.Lookup(x, "u")))]:
+            yield {"expr": dumps(expr_to_sx(e))}
+        n = 700 if tier == "quick" else 12000
+        for i in range(n):
+            gen = SharedGen(rng, ["general", "wrapped", "frag", "general"][i % 4])
+            if gen.g is not None:
+                gen.g.floats = 0.2
+            es = gen.lists()
+            e = es[0] if len(es) == 1 else p.Sum(tuple(es))
+            try:
+                yield {"expr": dumps(expr_to_sx(e))}
+            except Exception:
+                continue
+
+    def request(self, pl):
+        return f"({self.op} {pl['expr']})"
+
+    def run_impl(self, pl):
+        from pymbolic.mapper.cse_tagger import CSETagMapper, CSEWalkMapper
+        e = sx_to_expr(loads(pl["expr"]))
+        try:
+            w = CSEWalkMapper()
+            w(e)
+            return dumps(expr_to_sx(CSETagMapper(w)(e)))
+        except RecursionError:
+            raise
+        except Exception as ex:
+            return tag_err_sx(ex)
+
+    def nontrivial_key(self, pl, model, impl):
+        return pl["expr"] if "(CSE" in impl else None
+
+    def stats(self, pl, mo, io, acc):
+        k = "err" if io.startswith("(err") else ("tagged" if "(CSE" in io else "untouched")
+        acc.setdefault("outcomes", {})
+        acc["outcomes"][k] = acc["outcomes"].get(k, 0) + 1
+
+
+class TableHistTagStream(HistTagStream):
+    """the same against the table interpreter on the regenerated tables of cse_tagger.py"""
+    name = "table-histtag"
+    op = "cse-table-hist-tag"
+
+# }}}
+
+
 # {{{ probes: known findings replayed on the real code
 
 def probe_findings():
@@ -1565,12 +1655,22 @@ def probe_findings():
 # }}}
 
 
+def extract(ctx=None):
+    """lean/PV/Generated/Cse.lean (and Traversal.lean, whose walk / identity tables and node classes
+    it builds on) from the live source of pymbolic/cse.py, pymbolic/mapper/cse_tagger.py and the
+    wrapping helpers of pymbolic/primitives.py (extract/cse.py, extract/traversal.py)"""
+    from extract.cse import extract_cse
+    return extract_cse(ctx)
+
+
 PROP = Prop(
     id="C12",
     title="Common-subexpression handling keeps meaning and shares work",
-    lean_targets=["PV.Properties.C12"],
+    lean_targets=["PV.Properties.C12", "PV.Properties.C12Table"],
+    extractors=[extract],
     streams=[TagStream(), TagTreeStream(), UseCountStream(), WrapStream(), WrapArrayStream(), TraceStream(),
-             TagMapperStream(), TallyStream()],
+             TagMapperStream(), TallyStream(),
+             TableTagStream(), TableCountStream(), TableWrapStream(), HistTagStream(), TableHistTagStream()],
     probes=[probe_findings],
     trusted_base=[
         "Lean 4.33 kernel; axioms propext, Classical.choice, Quot.sound only",
@@ -1585,12 +1685,27 @@ PROP = Prop(
         "the tally stream",
         "floats are outside the exact model (model abstains); object arrays and multivectors are "
         "checked on the real code only",
+        "extract/cse.py + extract/traversal.py (ast readers of NormalizedKeyGetter, UseCountMapper, "
+        "CSEMapper, tag_common_subexpressions, CSEWalkMapper, CSETagMapper, wrap_in_cse, "
+        "make_common_subexpression, CommonSubexpression; unknown shapes are errors) and the meaning "
+        "PV/Model/CseTable.lean gives the table languages, validated on every run by the table-tag / "
+        "table-count / table-wrap / table-histtag streams (compiled interpreters on the regenerated "
+        "tables vs the real code)",
+        "PV/Model/CseTagger.lean as a model of pymbolic/mapper/cse_tagger.py (histtag stream)",
     ],
     level_text="Lean theorems (unbounded in list length, tree depth and history length) about the "
                "model of tag_common_subexpressions, the wrapping helpers and the evaluator's CSE "
                "cache; the model is tied to the code by correspondence of tagged trees, use counts, "
                "helper results and evaluation event logs, and the property's own statements are "
-               "checked on the real code with an independent interpreter and counting values.",
+               "checked on the real code with an independent interpreter and counting values.  "
+               "T-gen: the key getter, the statements of UseCountMapper.visit and of its wrapper "
+               "handler, every handler CSEMapper binds (with get_cse and the map_sum aliases), the "
+               "statement sequence and threshold of tag_common_subexpressions, the decision trees of "
+               "wrap_in_cse and make_common_subexpression, the CommonSubexpression constructor and the "
+               "two classes of cse_tagger.py are re-read from the source on every run (on top of the "
+               "C04 walk / identity tables), and normalizedKey, useCount, cseMap, tagAll, wrapInCse, "
+               "makeCse, c12HistWalk, c12HistTag are proved to be the table interpreters run on the "
+               "regenerated tables / the unique solutions of their one-step equations, for all inputs.",
     level_note="Value and sharing theorems are stated for expressions on which Python == is "
                "structural identity (no bool/float constants, keyword calls, Python lists); "
                "the sharing and end-to-end theorems for the fragment named by the property; "
